@@ -125,6 +125,17 @@ example : WFH [(str "Version", str "GnuPG v1"), (str "Comment", str "a: b c")] :
   · refine ⟨?_, by decide, ⟨by decide, by decide⟩, by decide⟩
     unfold noLF; decide
 
+/-- non-vacuity of `crc_mismatch_rejected` / `crc_reject`: checksum 0 is not the CRC-24 of the body `01 02 03`,
+    and the encoder's own checksum is accepted -/
+example : (0 : Nat) % 16777216 ≠ crc24 crc24Init [1, 2, 3] % 16777216 := by
+  simp [crc24, crcByte, crcShift, crc24Init]
+example : readBody (breakLines (b64enc [1, 2, 3]) ++ encTail (str "X") (crc24 crc24Init [1, 2, 3])) = ([1, 2, 3], .eof) := by
+  rw [readBody_encoded (str "X") [1, 2, 3] _ ⟨by decide, by unfold noLF; decide, by decide⟩]
+  simp
+example : lbAll [[65, 66], [], [67]] = [65, 66, 67] := by
+  rw [lbAll_eq]; rw [breakLines, intercalate_eq_joinLF, chunks_cons _ _ (by decide) (by decide)]
+  simp [lineLength, chunks_nil, joinLF]
+
 /-! ## clearsign -/
 
 /-- **dashEscaper, any Write chunking, every plaintext**: the text written is the dash-escaped
